@@ -18,7 +18,8 @@ MANIFEST = dict(
              "parameters, constructor parameters, input) in 2 instances alive together in one thread, in 8 threads started on "
              "a barrier (own instances, own key order) and in 3 freshly launched processes; the merged observations "
              "{proc, thread, seq, key, digest} are validated by TLC against TracePurity.tla: a second, different digest "
-             "for a key rejects the trace at that event.",
+             "for a key rejects the trace at that event."
+         " Added after the seeded-change campaign: inputs beyond 2^16 distinct values (each twice) and tiny inputs in sketches of 2000-10000 positions.",
         design_ref="DESIGN.md section 4, C12",
         note="sampling of environments (instances share no state, so there is no interleaving to control): 3 process launches, "
              "8 threads, the listed kinds/hashers/parameters; digests are 128-bit fingerprints of the exact bits; a hash "
